@@ -780,7 +780,16 @@ def install_re(reg):
     for name in ("_RE_MULTI_SPACE", "_RE_MULTI_NEWLINE"):
         reg.module_consts[(RTF, name)] = VExt("RePattern", z3.Const(f"re:{name}", ext_sort("RePattern")))
     pat = fun("re_pattern_text", ext_sort("RePattern"), S)
-    reg.method_models[("RePattern", "sub")] = lambda ex, st, o, a, k, n: [(st, VStr(RESUB(pat(o.t), a[0].t, a[1].t)))]
+    prev = reg.method_models.get(("RePattern", "sub"))
+    mine = {f"re:{name}" for name in ("_RE_MULTI_SPACE", "_RE_MULTI_NEWLINE")}
+
+    def m_sub(ex, st, o, a, k, n):
+        # the RTF page patterns are opaque here (PY-RE: total, uninterpreted); every other compiled pattern keeps the model
+        # another pack registered for it
+        if prev is not None and str(o.t) not in mine:
+            return prev(ex, st, o, a, k, n)
+        return [(st, VStr(RESUB(pat(o.t), a[0].t, a[1].t)))]
+    reg.method_models[("RePattern", "sub")] = m_sub
 
 
 # --------------------------------------------------- construction site: EPUB spine --
@@ -1284,7 +1293,6 @@ def contracts(reg):
     out.append(parse_ppt_contract())
     out.append(distribute_images_contract())
     out.extend(assumed_ppt_parsers())
-    install_re(reg)
     out.append(flush_page_contract())
     ET.install(reg)
     out.append(parse_spine_contract())
@@ -1296,9 +1304,14 @@ def contracts(reg):
     #                                                                 recorded finding C03-mbox-later-inline-parts-dropped)
     for c16c in C16.contracts(reg):
         if c16c.target.endswith(shared):
+            if c16c.target.endswith("::_read_eml_format"):
+                # C03 needs the clauses about the body text that becomes the unit; headers / addresses / attachments stay C16's
+                import dataclasses
+                c16c = dataclasses.replace(c16c, ensures=[(l, f) for (l, f) in c16c.ensures if l.startswith("body_")], loops={})     # (attachment loop: cut without invariant)
             out.append(c16c)
         elif reg.get(c16c.target) is None:
             reg.add(c16c)
+    install_re(reg)
     from pyvc import solve as _solve
     if _untrusted not in _solve.SAT_UNTRUSTED:
         _solve.SAT_UNTRUSTED.append(_untrusted)
